@@ -296,7 +296,7 @@ func FieldMenu() []FieldVariant {
 	add("F15-mention-only", "Mention string `json:\"mention\"` // see @tag", false)
 	add("F16-long", "Long map[string][]*Embedded `protobuf:\"bytes,9,rep,name=long,proto3\" json:\"long,omitempty\" protobuf_key:\"bytes,1,opt,name=key,proto3\" protobuf_val:\"bytes,2,opt,name=value,proto3\"` // @tag valid:\"required\" json:\"l\"", true)
 	// field types that span several lines and hold tag literals of their own (§ = position index for unique names)
-	add("F19-multiline-anonymous-struct", "Nested§ struct {\n\tA int `json:\"a\"`\n\tB string `json:\"b\" valid:\"inner\"` // inner @tag valid:\"never\"\n} `json:\"nested\"` // @tag valid:\"required\"", true)
+	add("F19-multiline-anonymous-struct", "Nested§ struct {\n\tA int `json:\"a\"`\n\tB string `json:\"b\" valid:\"inner\"` // inner @tag valid:\"never-ever\" form:\"no\"\n} `json:\"nested\"` // @tag valid:\"required\"", true)
 	add("F19-multiline-func-type", "Fn§ func(\n\ta int, // first\n\tb string,\n) error `json:\"-\"` // @tag valid:\"exist\"", true)
 	add("F19-oneline-anonymous-struct", "Page§ struct{ No int `json:\"no\"` } `json:\"page\"` // @tag valid:\"required\"", true)
 	// an inner field whose tag literal is byte-identical to the annotated outer one: the outer literal is the one merged
@@ -305,6 +305,9 @@ func FieldMenu() []FieldVariant {
 	// values with backslashes / non-printable-looking runes on keys the annotation does not mention: kept byte for byte
 	add("F20-backslash-in-untouched-value", "Bind string `binding:\"regexp=^\\\\d{6}$\" json:\"bind\"` // @tag valid:\"required\"", true)
 	add("F20-wide-space-in-untouched-value", "Wide string `comment:\"全角　空格\ttab\" json:\"wide\"` // @tag valid:\"required\" json:\"w\"", true)
+	// percent signs in values the annotation does not mention (and in one it does): text, not format verbs
+	add("F22-percent-in-untouched-value", "Rate string `json:\"rate%,omitempty\" comment:\"100%d %s %v %% %!\"` // @tag valid:\"to=0~100|0%~100%\"", true)
+	add("F22-percent-in-overridden-value", "Pct string `valid:\"le=100|%d%%\" json:\"pct\"` // @tag valid:\"le=100|at most 100%\"", true)
 	// keys that are a suffix / prefix of another key, same value: key matching must be on whole keys
 	add("F17-key-suffix-of-existing", "KeySuffix string `binding_valid:\"required\" json:\"ks\"` // @tag valid:\"required\"", true)
 	add("F17-key-prefix-of-existing", "KeyPrefix string `json:\"kp\" validx:\"required\"` // @tag valid:\"required\" json:\"kp\"", true)
